@@ -22,18 +22,24 @@ class Col:
         s = f"{self.name} {self.typ}"
         if self.pk:
             s += " PRIMARY KEY"
-        elif not self.nullable:
+        elif not self.nullable and not getattr(self, "implied_not_null", False):
             s += " NOT NULL"
         return s
 
 
 class Table:
-    def __init__(self, name, cols):
+    def __init__(self, name, cols, pk_constraint=None):
         self.name, self.cols = name, cols
         self.rows = []
+        # names of the key columns when the key is declared by a table constraint `PRIMARY KEY (a, b)`
+        # (the only way to declare a composite key); those columns are NOT NULL by implication
+        self.pk_constraint = pk_constraint
 
     def ddl(self):
-        return f"CREATE TABLE {self.name}({', '.join(c.ddl() for c in self.cols)})"
+        body = ', '.join(c.ddl() for c in self.cols)
+        if self.pk_constraint:
+            body += f", PRIMARY KEY ({', '.join(self.pk_constraint)})"
+        return f"CREATE TABLE {self.name}({body})"
 
     def pk(self):
         for c in self.cols:
